@@ -214,6 +214,11 @@ fn create_ack(
         .headers
         .clone_into(&mut headers, Name::CALL_ID)?;
 
+    // the ACK for a non-2xx response must carry the same Route headers as the INVITE
+    if request.msg.headers.contains(&Name::ROUTE) {
+        request.msg.headers.clone_into(&mut headers, Name::ROUTE)?;
+    }
+
     let cseq = request.msg.headers.get_named::<CSeq>()?;
 
     headers.insert_named(&CSeq {
